@@ -30,6 +30,10 @@ def exc_name(e: BaseException) -> str:
     return type(e).__name__
 
 
+import threading as _threading
+_STAGED = _threading.local()
+_STAGE_LOCK = _threading.Lock()
+
 class Real:
     def __init__(self, contents, depth=3, width=2, store_alg="SHA-256",
                  ns="https://ns.dataone.org/service/types/v2.0#SystemMetadata", base=None, root=None, props=None,
@@ -72,23 +76,28 @@ class Real:
 
     def stage(self, tok):
         """a staging file of the caller holding the content: handed to one call, reused (rewritten in place) afterwards"""
-        self._nstage = getattr(self, "_nstage", 0) + 1
-        p = os.path.join(self.inputs, "stage%d-c%d" % (self._nstage, tok))
+        import threading
+        with _STAGE_LOCK:
+            self._nstage = getattr(self, "_nstage", 0) + 1
+            n = self._nstage
+        p = os.path.join(self.inputs, "stage%d-c%d" % (n, tok))
         with open(p, "wb") as f:
             f.write(self.contents.by_tok[tok])
-        self._staged = getattr(self, "_staged", []) + [p]
+        # per calling thread: a call reuses only the staging files it was given itself
+        tl = _STAGED.__dict__.setdefault("by_real", {})
+        tl.setdefault(id(self), []).append(p)
         return p
 
     def reuse_staging(self):
         """what callers do with a staging file once the call has returned: write something else into it"""
-        for p in getattr(self, "_staged", []):
+        mine = _STAGED.__dict__.get("by_real", {}).pop(id(self), [])
+        for p in mine:
             try:
                 with open(p, "r+b") as f:
                     f.write(b"\x00the caller has reused this staging file\n")
                     f.truncate()
             except OSError:
                 pass
-        self._staged = []
 
     def py_data(self, d):
         self.last_stream = None
